@@ -302,6 +302,8 @@ static void check_c16(const Spec& sp, const std::vector<Tok>& toks, int maxlen, 
                     if (S.s.stack() != S4.s.stack()) kd = "stack"; else if (S.s.alt() != S4.s.alt()) kd = "altstack";
                     else if (S.s.cond_size() != S4.s.cond_size() || S.s.cond_first_false() != S4.s.cond_first_false()) kd = "cond";
                     else if (S.s.env().nOpCount != S4.s.env().nOpCount) kd = "opcount";
+                    else if (S.s.env().execdata.m_validation_weight_left_init && S.s.env().execdata.m_validation_weight_left != S4.s.env().execdata.m_validation_weight_left) kd = "sigbudget";
+                    else if (S.s.env().execdata.m_codeseparator_pos != S4.s.env().execdata.m_codeseparator_pos) kd = "codeseparator_pos";
                     if (kd && which + 1 == l.size()) rep(std::string("exec-failed-operation-has-effect:") + impl::sv_name(sp.sv) + ";failed=" + texts[which] + ";" + kd,
                                 std::string("the failing operation (") + texts[which] + ") changed the " + kd + " although a failing step of the same operation leaves the session untouched: stack=" + impl::stack_str(S.s.stack()) + " vs " + impl::stack_str(S4.s.stack()));
                 }
@@ -315,6 +317,8 @@ static void check_c16(const Spec& sp, const std::vector<Tok>& toks, int maxlen, 
                     if (S.s.stack() != S3.s.stack()) kd = "stack"; else if (S.s.alt() != S3.s.alt()) kd = "altstack";
                     else if (S.s.cond_size() != S3.s.cond_size() || S.s.cond_first_false() != S3.s.cond_first_false()) kd = "cond";
                     else if (S.s.env().nOpCount != S3.s.env().nOpCount) kd = "opcount";
+                    else if (S.s.env().execdata.m_validation_weight_left_init && S.s.env().execdata.m_validation_weight_left != S3.s.env().execdata.m_validation_weight_left) kd = "sigbudget";
+                    else if (S.s.env().execdata.m_codeseparator_pos != S3.s.env().execdata.m_codeseparator_pos) kd = "codeseparator_pos";
                     if (kd) rep(std::string("exec-continues-after-failure:") + impl::sv_name(sp.sv) + ";failed=" + texts[which] + ";" + kd,
                                 std::string("operations after the failing one (") + texts[which] + ") were still applied: " + kd + " differs from exec of the list cut after it: stack=" + impl::stack_str(S.s.stack()) + " vs " + impl::stack_str(S3.s.stack()));
                 }
@@ -326,6 +330,7 @@ static void check_c16(const Spec& sp, const std::vector<Tok>& toks, int maxlen, 
             if (S.s.stack() != R.stack) kind = "stack"; else if (S.s.alt() != R.alt) kind = "altstack";
             else if (S.s.cond_size() != R.cond_size() || S.s.cond_first_false() != R.cond_first_false()) kind = "cond";
             else if (S.s.env().nOpCount != R.opcount) kind = "opcount";
+            else if (sp.sv == ref::SigVer::TAPSCRIPT && S.s.env().execdata.m_validation_weight_left != R.ed.weight_left) kind = "sigbudget";
             if (kind) { rep(std::string("exec-state:") + pk + ";" + kind, std::string("state after exec differs in ") + kind + ": ref stack=" + impl::stack_str(R.stack) + " impl stack=" + impl::stack_str(S.s.stack())); continue; }
             // position and remaining script untouched
             for (const char* f : {"script", "pc", "pend", "curr_op_seq", "history_sizes", "history_contents", "done", "successor", "codesep(pbegincodehash)"}) {
